@@ -284,6 +284,8 @@ def check_closure_protocol(a, cl):
         if role == "consumer":
             if np_ < ns:
                 normal.append("%d slots are read but only %d positions are tracked" % (ns, np_))
+                if info["at_foreign"]:
+                    problems.append("%d slots are duplicated by ptr::read but only %d owner positions are advanced: the other owner still claims its element when foreign code runs (double drop on unwind)" % (ns, np_))
             for e, st in info["at_foreign"]:
                 clean0 = all(x == 0 for x in st[0]) and all(x == 0 for x in st[2])
                 clean1 = all(x == 1 for x in st[0]) and all(x == 1 for x in st[2])
